@@ -188,16 +188,16 @@ def main(tier, replay):
 
     # 1. exhaustive model checking -------------------------------------------------
     jobs = []
-    lf_const = dict(Alphabet={97, 98}, NL=10, MaxItems=3, MaxLen=3 if thorough else 2,
-                    MaxChunk=4 if thorough else 3, KeepHist=False)
-    jobs.append(('LineFraming', lf_const, ['TypeOK', 'Confluence', 'RoundTrip', 'FrameInverse',
-                                           'NoEarlyOutput']))
+    lf_inv = ['TypeOK', 'Confluence', 'RoundTrip', 'FrameInverse', 'NoEarlyOutput']
+    shapes = [(3, 2, 3)] if not thorough else [(3, 2, 4), (2, 3, 4)]     # (MaxItems, MaxLen, MaxChunk)
+    for (mi, ml, mc_) in shapes:
+        jobs.append(('LineFraming', dict(Alphabet={97, 98}, NL=10, MaxItems=mi, MaxLen=ml, MaxChunk=mc_,
+                                         KeepHist=False), lf_inv))
     lp_cfgs = [(1, 'little'), (2, 'big')] + ([(2, 'little'), (1, 'big')] if thorough else [])
     for (p, order) in lp_cfgs:
-        lp_const = dict(Bytes={0, 1, 2}, P=p, Order=order, MaxItems=3,
-                        MaxLen=3 if thorough else 2, MaxChunk=4 if thorough else 3,
-                        KeepHist=False)
-        jobs.append(('LengthPrefix', lp_const, ['Confluence', 'RoundTrip']))
+        for (mi, ml, mc_) in shapes:
+            jobs.append(('LengthPrefix', dict(Bytes={0, 1, 2}, P=p, Order=order, MaxItems=mi, MaxLen=ml,
+                                              MaxChunk=mc_, KeepHist=False), ['Confluence', 'RoundTrip']))
     rs = C.par([lambda m=m, c=c, i=i: C.run_tlc(m, C.cfg(constants=c, invariants=i),
                                                   coverage=True, workers=4)
                 for (m, c, i) in jobs])
@@ -208,8 +208,8 @@ def main(tier, replay):
     V.phase('model checking')
 
     # 2. behaviours generated by TLC ----------------------------------------------
-    nsim = 6000 if thorough else 600
-    cap = None if thorough else 300     # exhaustive behaviours replayed per configuration
+    nsim = 3000 if thorough else 600
+    cap = 2500 if thorough else 300     # exhaustive behaviours replayed per configuration
     gens = []
     gens.append(('line', 'LineFraming', dict(Alphabet={97, 98}, NL=10, MaxItems=2, MaxLen=1,
                                              MaxChunk=2, KeepHist=True), None))
